@@ -2189,6 +2189,25 @@ func (p *c08Parent) crashImages(ops []c08Op, script string) {
 				return c
 			})
 			alterSnap("footer", func(c []byte) []byte { c[len(c)-1-p.r.Intn(8)] ^= byte(1 << p.r.Intn(8)); return c })
+			// right name, right LENGTH, the tail reads back as zeros (a lost last block after a power loss,
+			// a zero-filled / cut copy): the trailer itself is gone — altered_snapshot_never_served
+			zeroFrom := func(from int) func(c []byte) []byte {
+				return func(c []byte) []byte {
+					if from < 0 {
+						from = 0
+					}
+					for i := from; i < len(c); i++ {
+						c[i] = 0
+					}
+					return c
+				}
+			}
+			if !c08AllZero(b[:len(b)-8]) {
+				alterSnap("trailer_zero", zeroFrom(len(b)-8))
+				alterSnap("tail_zero", zeroFrom(len(b)-8-1-p.r.Intn(len(b)-8)))
+				alterSnap("last_block_zero", zeroFrom((len(b)-1)/4096*4096))
+				alterSnap("all_zero", zeroFrom(0))
+			}
 		}
 		// (4b) a committed snapshot NAME whose file has another size than announced (power loss after
 		// the rename reached the disk before the data, a copy cut short): not a crash image of the
@@ -2233,6 +2252,15 @@ func (p *c08Parent) crashImages(ops []c08Op, script string) {
 		// (6) life goes on after the restart: resume the writer, collect, die again
 		p.resume(im.clone(), script)
 	}
+}
+
+func c08AllZero(b []byte) bool {
+	for _, x := range b {
+		if x != 0 {
+			return false
+		}
+	}
+	return true
 }
 
 // c08SegOk: the recorded size and CRC64 of a segment file match its content.
